@@ -244,6 +244,15 @@ def check_driver_c09(ctx, drv, gen, sel, inner):
                 found_roles.setdefault(r, []).append(s)
     ctx.check("score" in found_roles and all(nf_equal(s.data["index"][0].nf, lv) for s in found_roles.get("score", [])), rule, "score", e.loc(), "the candidate interval's score is the column-summed anomaly score at its own argmax, stored at the interval's row", found=[repr(s.data["value"])[:100] for s in stores])
     ctx.check("inner-start" in found_roles and "inner-end" in found_roles, "C09.b IDX-GATHER", "inner-interval", e.loc(), "the reported inner interval is (I[argmax], J[argmax]): a gather on both candidate arrays with the same argmax", found=[repr(s.data["value"])[:100] for s in stores if s not in found_roles.get("score", [])], expected=f"{want['inner-start']!r}, {want['inner-end']!r}")
+    # the two-column table of maximisers: inner start in column 0, inner end in column 1, both at the interval's row
+    for r, col in (("inner-start", 0), ("inner-end", 1)):
+        for s_ in found_roles.get(r, []):
+            ix = s_.data["index"]
+            if len(ix) == 2:
+                okc = isinstance(ix[0], Num) and nf_equal(ix[0].nf, lv) and isinstance(ix[1], Num) and ix[1].nf.as_const() == col
+                ctx.check(okc, "C09.d OUT-WRITTEN", f"maximizers|{r}", s_.loc(), f"the published maximiser table holds the {r.replace('-', ' ')} in column {col} of the interval's row", found=f"[{valkey(ix[0])}, {valkey(ix[1])}]", expected=f"[i, {col}]")
+            elif len(ix) == 1:
+                ctx.check(isinstance(ix[0], Num) and nf_equal(ix[0].nf, lv), "C09.b IDX-GATHER", f"{r}|row", s_.loc(), f"the {r.replace('-', ' ')} is stored at the interval's own row", found=valkey(ix[0]), expected="i")
     odd = [s for s in stores if not any(s in v for v in found_roles.values())]
     for s in odd:
         ctx.violation("C09.b IDX-GATHER", "stray-store", s.loc(), "a per-interval table receives a value that is neither the maximal score nor the maximising inner interval", found=repr(s.data["value"])[:200])
@@ -392,4 +401,10 @@ def check_published(ctx, cls, drv):
                         outs[k.s] = a[0].args[2]
             # scores column = output 1, interval bounds = outputs 3, 4, argmax columns = output 2
             ok = outs.get("score") == 1 and outs.get("interval_start") == 3 and outs.get("interval_end") == 4 and outs.get("argmax_anomaly_start") == 2 and outs.get("argmax_anomaly_end") == 2
+            # the argmax columns are columns 0 and 1 of the maximiser table
+            for nm, col in (("argmax_anomaly_start", 0), ("argmax_anomaly_end", 1)):
+                v = dict((k.s, v) for k, v in d.items if isinstance(k, StrV)).get(nm)
+                va = single_atom(v.nf) if isinstance(v, Num) and v.nf is not None else None
+                okcol = va is not None and va.kind == "app" and va.args[0] == "col" and lift(va.args[2]).as_const() == col
+                ctx.check(okcol, rule, f"published-columns|{nm}", e.loc(), f"{nm} is column {col} of the maximiser table (all rows)", found=repr(v.nf)[:80] if isinstance(v, Num) and v.nf is not None else valkey(v)[:60], expected=f"maximizers[:, {col}]")
     ctx.check(ok, rule, "published-columns", ctor[0].loc() if ctor else cls.module.relpath, "the published scores table takes score, interval bounds and argmax columns from the corresponding driver outputs", found=found)
